@@ -18,13 +18,91 @@ EXPLANATION = (
     "starting with the first decoder, accuracy log <= 6 (C12); (4 streams) the writer reserves three 16-bit "
     "little-endian sizes, writes the four streams in order and patches sizes 1-3, the reader accumulates them "
     "(C01.layout.jump-table); every stream is written last-symbol-first and closed with the 1-bit padding marker "
-    "the reader skips. Not decided: completeness/depth of the generated code, the < 128-byte bound, canonical code "
+    "the reader skips; (direct extent) for each of the 128 direct headers the length guard and the reported byte "
+    "count are ceil(n/2) and 1 + ceil(n/2), evaluated in the source's own integer types; (remembered table) the "
+    "compressor remembers a Huffman table for treeless reuse only if its description was written and kept (shared "
+    "with C02.pair.huffman-commit). Not decided: completeness/depth of the generated code, the < 128-byte bound, canonical code "
     "assignment and round trip for every histogram — numerical.")
 ASSUMPTIONS = ["BitWriter::write_bits is LSB-first", "code construction arithmetic not analysed"]
 
 HUFD = c07.HUF
 HUFE = "ruzstd::huff0::huff0_encoder"
 SPEC = c14.SPEC
+
+
+def _nibble_order(ctx, RH, rb, direct, m):
+    from .. import ieval
+    ix = hq.Index(rb)
+    hl = hq.peel(m["scrut"])
+    inside = lambda x, o: o["sp"][0] <= x["sp"][0] and x["sp"][1] <= o["sp"][1]
+    is_weights = lambda e: hq.field_chain(e)[1] == ["weights"] and hq.field_chain(e)[0].get("k") == "Local" and hq.field_chain(e)[0].get("name") == "self"
+    stores = []
+    for x, _ in H.walk(direct):
+        if x.get("k") != "Assign":
+            continue
+        l = hq.peel(x["l"])
+        loops = [a for a in ix.ancestors(x) if a.get("k") in ("For", "While", "Loop") and inside(a, direct)]
+        if l.get("k") == "Index" and is_weights(l["e"]):
+            stores.append((x, l["idx"], loops))
+        elif l.get("k") == "Unary" and l["op"] == "*" and hq.peel(l["e"]).get("k") == "Local":
+            stores.append((x, hq.peel(l["e"]), loops))
+    if not stores or any(len(lp) != 1 or lp[0]["k"] != "For" or lp[0] is not stores[0][2][0] for _, _, lp in stores):
+        raise Anchor("the direct weights are not stored by one `for` loop")
+    loop = stores[0][2][0]
+    pat, it = loop["pat"], hq.peel(loop["iter"])
+    # what the loop variable ranges over
+    rs = [x for x in hq.find(direct, lambda x: x.get("k") == "MethodCall" and x["name"] == "resize" and is_weights(x["recv"]) and x["sp"][1] < loop["sp"][0])]
+    if len(rs) != 1:
+        raise Anchor("self.weights is not resized once before the loop")
+    elem_lid = None
+    if pat.get("k") == "Bind" and it.get("k") == "StructLit" and (it["path"].get("path") or "").endswith("range::RangeTo") and len(it["fields"]) == 1:
+        var, count = pat["lid"], it["fields"][0]["e"]
+    elif pat.get("k") == "Tuple" and len(pat.get("pats") or pat.get("elems") or ()) == 2 and it.get("k") == "MethodCall" and it["name"] == "enumerate" and \
+            hq.peel(it["recv"]).get("k") == "MethodCall" and hq.peel(it["recv"])["name"] == "iter_mut" and is_weights(hq.peel(it["recv"])["recv"]):
+        ps = pat.get("pats") or pat.get("elems")
+        if ps[0].get("k") != "Bind" or ps[1].get("k") != "Bind":
+            raise Anchor("loop pattern")
+        var, elem_lid, count = ps[0]["lid"], ps[1]["lid"], rs[0]["args"][0]
+    else:
+        raise Anchor("the direct weights loop is neither `for i in 0..n` nor `for (i, w) in self.weights.iter_mut().enumerate()`")
+    raw = lambda j: (((2 * j) % 16) << 4) | ((2 * j + 1) % 16)
+    bad = []
+    h = 255
+    n_exp = h - SPEC["huffman"]["direct_offset"]
+    try:
+        base = ieval.IEval(rb, {hl["lid"]: h})
+        n = base.ev(count)
+        sized = base.ev(rs[0]["args"][0])
+        if n != n_exp or sized != n_exp:
+            bad.append("header %d: loop runs %d times over a vector of %d weights, %d expected" % (h, n, sized, n_exp))
+        ev = ieval.IEval(rb, {hl["lid"]: h})
+
+        def hook(x):
+            if x.get("k") == "Index" and not is_weights(x["e"]) and (x.get("base_ty") or "").lstrip("&").startswith("[u8"):
+                return raw(ev.ev(x["idx"]))
+            return None
+        ev.hook = hook
+        pcs = []
+        for x, target, _ in stores:
+            pc = ix.path_conditions(x)
+            if any(c["kind"] == "arm" and c.get("node") is not None and inside(c["node"], loop) for c in pc):
+                raise Anchor("a store under a match inside the loop")
+            pcs.append([c for c in pc if c.get("node") is not None and inside(c["node"], loop) and c["kind"] in ("if", "else", "arm-guard")])
+        for t in range(min(n, 256)):
+            ev.env[var] = t
+            done = []
+            for (x, target, _), conds in zip(stores, pcs):
+                if all(ev.ev(c["expr"]) == c["pos"] for c in conds):
+                    where = t if (target.get("k") == "Local" and target.get("lid") == elem_lid) else ev.ev(target)
+                    done.append((where, ev.ev(x["r"])))
+            if done != [(t, t % 16)]:
+                bad.append("weight %d: stores %s, expected weight[%d] = nibble %d of the payload" % (t, done, t, t))
+    except ieval.Overflow as e:
+        bad.append(e.what)
+    except ieval.Unsupported as e:
+        raise Anchor("direct weights loop not evaluable: %s" % e)
+    ctx.check(not bad, RH, "reader::nibble-order", rb["file"], "weight t is nibble t of the payload: even weights in the high nibble, odd weights in the low nibble",
+              observed=bad[:3])
 
 
 def run(ctx):
@@ -77,15 +155,9 @@ def run(ctx):
         nw = [x for x in hq.find(direct, lambda x: x.get("k") == "LetStmt" and x["pat"].get("name") == "num_weights")]
         ctx.check(len(nw) == 1 and H.show(hq.peel(nw[0]["init"])) == "(header - %d)" % SPEC["huffman"]["direct_offset"], RH, "reader::direct-count",
                   rb["file"], "direct weight count = header - 127", observed=H.show(nw[0]["init"]) if nw else None)
-        # nibble order on the reader
-        asg = [x for x in hq.find(direct, lambda x: x.get("k") == "Assign")]
-        ix = hq.Index(rb)
-        got = {}
-        for a in asg:
-            cs = [c for c in dom.conds(ix, a, ("if", "else")) if "% 2" in c or "& 1)" in c or "(1 & " in c]      # idx % 2, in normal form idx & 1
-            got["even" if any(c.startswith("(0 == ") or c.endswith("== 0)") for c in cs) and not any(c.startswith("!") or "!=" in c for c in cs) else "odd"] = H.show(hq.peel(a["r"]))
-        want = {"even": "(weights_raw[((idx as usize) >> 1)] >> 4)", "odd": "(weights_raw[((idx as usize) >> 1)] & 15)"}
-        ctx.check(got == want, RH, "reader::nibble-order", rb["file"], "even weights in the high nibble, odd weights in the low nibble", observed=got, expected=want)
+        # nibble order on the reader: decided by evaluating the stores of the direct arm on a virtual payload whose
+        # k-th nibble is k mod 16 (zsa/ieval.py) — weight t must come out as t mod 16 for every t
+        _nibble_order(ctx, RH, rb, direct, m)
         # FSE path: header bytes available, two decoders alternate starting with the first
         fse = arms[0][2]
         bl = [x for x in hq.find(fse, lambda x: x.get("k") == "MethodCall" and x["name"] == "build_decoder")]
@@ -139,6 +211,95 @@ def run(ctx):
         ei = ctx.hir("ruzstd::fse::fse_encoder::FSEEncoder::encode_interleaved")
         ctx.check(ei is not None, RH, "writer::interleaved-encoder-present", ei["file"], "weights are FSE-coded with two interleaved states")
     ctx.guard(RH, "weights", weights)
+
+    RX = "C13.layout.direct-extent"
+
+    def direct_extent():
+        """direct weight description, for every header byte h of that form (128..=255, n = h - 127 weights): the
+        length guard fires exactly below ceil(n / 2) payload bytes and the function reports 1 + ceil(n / 2) bytes
+        consumed — both decided by evaluating the guard's bound and the consumed-bytes expression, in the types the
+        source computes them in, for each of the 128 headers (a u8 product such as n * 4 overflows from n = 64)."""
+        from .. import ieval
+        rb = ctx.hir(HUFD + "::read_weights")
+        ix = hq.Index(rb)
+        m = T.find_match(rb["body"], lambda s_: H.show(hq.peel(s_)) == "header")
+        arms = T.arms(m)
+        if len(arms) != 2 or arms[1][0] is not None or not arms[0][0]:
+            raise Anchor("header dispatch of read_weights is not `0..=k => FSE, _ => direct`")
+        hl = hq.peel(m["scrut"])
+        if hl.get("k") != "Local":
+            raise Anchor("header is not a local")
+        direct = arms[1][2]
+        domain = [h for h in range(256) if not any(lo <= h <= hi for lo, hi in arms[0][0])]
+        inside = lambda x: direct["sp"][0] <= x["sp"][0] and x["sp"][1] <= direct["sp"][1]
+        # (1) the length guard
+        gs = [g for g in ix.all_guards() if inside(g["node"]) and any("NotEnoughBytesInSource" in e for e in g.get("errs") or ()) and "expr" in g]
+        ctx.check(len(gs) == 1, RX, "reader::one-length-guard", rb["file"], "the direct form has one length guard (NotEnoughBytesInSource)", observed=len(gs))
+        acc = [x for x, _ in H.walk(rb["body"]) if x.get("k") == "LetStmt" and x["pat"].get("name") == "bits_read" and x["pat"].get("mut")]
+        if len(acc) != 1 or len(gs) != 1:
+            raise Anchor("bit counter / guard of read_weights not found")
+        acc_lid = acc[0]["pat"]["lid"]
+        tail = hq.peel(hq.tail_expr(rb["body"]))
+        if not (tail.get("k") == "Call" and (H.callee(tail) or "").endswith("Result::Ok") and len(tail["args"]) == 1):
+            raise Anchor("read_weights does not end in Ok(bytes)")
+        # increments of the counter inside the direct arm: straight-line, or once per iteration of `for _ in ..n`
+        incs = []
+        for x, _ in H.walk(direct):
+            if x.get("k") in ("Assign", "AssignOp") and hq.peel(x["l"]).get("k") == "Local" and hq.peel(x["l"])["lid"] == acc_lid:
+                if x["k"] != "AssignOp" or x["op"] != "+=":
+                    raise Anchor("the bit counter is written other than by `+=` in the direct arm")
+                loops = [a for a in ix.ancestors(x) if a.get("k") in ("For", "While", "Loop") and inside(a)]
+                conds = [c for c in ix.path_conditions(x) if c["kind"] in ("if", "else", "arm", "arm-guard") and inside(c.get("node") or direct) and
+                         c.get("node") is not None and c["node"]["sp"][0] >= direct["sp"][0] and c["node"] is not m]
+                if len(loops) > 1 or (loops and loops[0]["k"] != "For") or conds:
+                    raise Anchor("the bit counter is advanced conditionally or in a nested / non-`for` loop in the direct arm")
+                trip = None
+                if loops:
+                    it = hq.peel(loops[0]["iter"])
+                    if not (it.get("k") == "StructLit" and (it["path"].get("path") or "").endswith("range::RangeTo") and len(it["fields"]) == 1):
+                        raise Anchor("loop over something else than `0..n`")
+                    trip = it["fields"][0]["e"]
+                incs.append((x["r"], trip))
+        ctx.check(len(incs) >= 1, RX, "reader::counter-advanced", rb["file"], "the direct arm advances the bit counter", observed=len(incs))
+        bad_g, bad_r = [], []
+        evg = ieval.IEval(rb, {})
+        lens = lambda x: x.get("k") == "MethodCall" and x["name"] == "len" and (H.callee(x) or "").startswith("core::slice")
+        for h in domain:
+            n = h - SPEC["huffman"]["direct_offset"]
+            need = (n + 1) // 2
+            try:
+                for have, fire in ((need - 1, True), (need, False)):
+                    if have < 0:
+                        continue
+                    evg.env[hl["lid"]] = h
+                    evg.hook = lambda x, have=have: have if lens(x) else None
+                    v = evg.ev(gs[0]["expr"])
+                    if (v != gs[0].get("pos", False)) != fire:      # pos: the continuing path's condition is expr (True) / !expr (False)
+                        bad_g.append("header %d (%d weights): with %d payload bytes the guard %s" % (h, n, have, "does not fire" if fire else "fires"))
+            except ieval.Overflow as e:
+                bad_g.append("header %d: %s" % (h, e.what))
+            try:
+                ev = evg
+                ev.hook = None
+                ev.env = {hl["lid"]: h}
+                total = ev.ev(acc[0]["init"])
+                for r, trip in incs:
+                    total += ev.ev(r) * (ev.ev(trip) if trip is not None else 1)
+                ev.env = {hl["lid"]: h, acc_lid: total}
+                got = ev.ev(tail["args"][0])
+                ev.env = {}
+                if got != 1 + need:
+                    bad_r.append("header %d (%d weights): reports %d bytes consumed, the description occupies %d" % (h, n, got, 1 + need))
+            except ieval.Overflow as e:
+                bad_r.append("header %d: %s" % (h, e.what))
+        ctx.check(not bad_g, RX, "reader::guard-at-ceil-half", H.loc(rb, gs[0]["node"]),
+                  "the length guard must fire exactly when fewer than ceil(n / 2) bytes follow the header, for each of the %d direct headers" % len(domain),
+                  observed=bad_g[:3] + (["... %d headers in all" % len(bad_g)] if len(bad_g) > 3 else []))
+        ctx.check(not bad_r, RX, "reader::bytes-consumed", rb["file"],
+                  "read_weights must report 1 + ceil(n / 2) bytes for a direct description of n weights, for each of the %d direct headers" % len(domain),
+                  observed=bad_r[:3] + (["... %d headers in all" % len(bad_r)] if len(bad_r) > 3 else []))
+        ctx.check(len(domain) == 128, RX, "reader::domain", rb["file"], "direct headers are 128..=255", observed=len(domain))
+    ctx.guard(RX, "direct_extent", direct_extent)
 
     RS = "C13.layout.streams"
 
@@ -201,4 +362,17 @@ def run(ctx):
         ctx.check("if with_table { self.write_table() }" in s and "encode_stream(self.table, self.writer, data)" in s, RS, "encode::single-stream", e1["file"],
                   "single stream: optional table, then the stream")
     ctx.guard(RS, "streams", streams)
+    # a treeless literals section is decoded with the table of the last *transmitted* description: the compressor may
+    # only remember a table whose description it actually wrote and kept (same rule instances as C02.pair.huffman-commit)
+    from . import c02
+    start = len(ctx.obs)
+    c02.run(ctx)
+    keep = []
+    for o in ctx.obs[start:]:
+        if o.rule == "C02.pair.huffman-commit":
+            o.rule = "C13.pair.huffman-commit"
+            keep.append(o)
+    ctx.obs[start:] = keep
+    ctx.notes[:] = [n_ for n_ in ctx.notes if "INFO latent" not in n_]
+    ctx.floor("C13.pair.huffman-commit", len(keep), 4, "remembered-table obligations")
     ctx.floor("C13.all", len([o for o in ctx.obs if o.cfg == ctx.cfg]), 24, "C13 obligations")
